@@ -149,10 +149,15 @@ def load_prop(pid):
     return json.load(open(p))
 
 def known_findings():
-    try:
-        return json.load(open(os.path.join(VERIF, "known_findings.json")))["findings"]
-    except FileNotFoundError:
-        return []
+    """known_findings.json plus props/*.findings.json (same record format)."""
+    out = []
+    files = [os.path.join(VERIF, "known_findings.json")] + sorted(glob.glob(os.path.join(VERIF, "props", "*.findings.json")))
+    for f in files:
+        try:
+            out += json.load(open(f)).get("findings", [])
+        except FileNotFoundError:
+            pass
+    return out
 
 def parse_R(out):
     m = re.search(r"R\s*=\s*(.*?)\n\s*:\s*list", out, re.S)
